@@ -436,6 +436,11 @@ func genTable(cfg Config, emit func(string, bool, []string)) {
 			g.add("next 0 s%d -1", g.nsnap-1)
 			g.add("wtxn a")
 			g.add("ins a %s 9 0 - - 0 9", hx([]byte{'h', 9}))
+			// a second writer commits to m meanwhile: the iterator of m driven through THIS transaction
+			// (which does not hold m) keeps seeing the state the transaction started from
+			g.add("side m %s 8 0 - - 0 8", hx([]byte{'g', 8}))
+			g.add("next 0 w -1")
+			g.add("all w m")
 			g.add("gcwhile")
 			g.add("glen - m")
 			g.add("glen - a")
@@ -627,6 +632,35 @@ func genTable(cfg Config, emit func(string, bool, []string)) {
 				}
 				g.add("list %s m lpm x0a00/8", h)
 				g.add("prefix %s m lpm x0000/0", h)
+			}
+			// the LAST child (branch byte 0xff) of a small index node removed, in the primary index and
+			// in the tag index, then looked up again through every query kind
+			g.add("wtxn m")
+			g.add("ins m %s 80 0 xff - 0 %d", hx([]byte("f\xff")), ord)
+			ord++
+			g.add("ins m %s 81 0 x61 - 0 %d", hx([]byte("fa")), ord)
+			ord++
+			g.add("ins m %s 82 0 x62 - 0 %d", hx([]byte("fb")), ord)
+			ord++
+			g.add("commit")
+			g.nsnap++
+			g.add("wtxn m")
+			g.add("del m %s", hx([]byte("f\xff")))
+			for _, hh := range []string{"w", "-"} {
+				if hh == "-" {
+					g.add("commit")
+					g.nsnap++
+					g.add("rtxn")
+					g.nsnap++
+					hh = fmt.Sprintf("s%d", g.nsnap-1)
+				}
+				g.add("get %s m id %s", hh, hx([]byte("f\xff")))
+				g.add("prefix %s m id %s", hh, hx([]byte("f\xff")))
+				g.add("lb %s m id %s", hh, hx([]byte("f\xff")))
+				g.add("get %s m tags xff", hh)
+				g.add("list %s m tags xff", hh)
+				g.add("prefix %s m tags xff", hh)
+				g.add("lb %s m tags xff", hh)
 			}
 			// a write transaction over NO tables (legal: locks nothing) that spans another
 			// transaction's commit: its own commit / abort changes nothing anybody can see
